@@ -301,6 +301,9 @@ def main():
             # claimed in this run and the behavioural tie (exhaustive token sequences, all code points) decides alone
             failed = {'SlacProps.C01Source' if l.startswith('Grammar') else 'SlacProps.C03Source' for l in translation.split('\n') if 'unrecognised' in l}
             cfg['modules'] = [m for m in cfg['modules'] if m not in (failed or {'SlacProps.C01Source', 'SlacProps.C03Source'})]
+            if 'SlacProps.C01Source' in (failed or {'SlacProps.C01Source'}) and cfg.get('srcgen'):
+                # SlacProps.C01Parser is stated over the grammar tables as well
+                cfg['srcgen'] = {k: v for k, v in cfg['srcgen'].items() if v != 'SlacProps.C01Parser'}
     # second translator (tools/rs2lean.py): whole FUNCTIONS of validate.rs / optimizer.rs / environment.rs / value.rs re-translated into
     # SlacModel/Generated/Src*.lean; `srcgen` maps a generated file to the `…Source` module that proves the hand-written model equal to it
     if cfg.get('srcgen'):
